@@ -28,6 +28,7 @@ structure Case where
   failing : List Nat := []      -- targets with fail=exit or fail=undef
   badPkgs : List Nat := []      -- bad ++ miss
   warm : Bool := false          -- second invocation on a built repository: unchanged targets complete without events
+  subs : List (Nat × Nat) := [] -- (package, target): the package's BUILD file subincludes the target
 
 def parseInts (s : String) : Option (List Nat) := if s = "-" || s = "" then some [] else (s.splitOn ",").mapM String.toNat?
 
@@ -74,6 +75,14 @@ def effDeps (deps : List (List Nat)) (prov : List (Nat × List Nat)) (req : List
   let added := late.filterMap fun (_, tx) => match tx with | [t', x] => if t' == t then some x else none | _ => none
   (resolved ++ added).eraseDups
 
+/-- `1:0,2:0` -> [(1,0),(2,0)] -/
+def parseSubs (s : String) : Option (List (Nat × Nat)) :=
+  if s = "-" || s = "" then some [] else
+  (s.splitOn ",").mapM fun e =>
+    match e.splitOn ":" with
+    | [p, t] => do pure (← p.toNat?, ← t.toNat?)
+    | _ => none
+
 def parseCase (line : String) : Option Case := do
   let fs := (line.splitOn " ").drop 1
   let kv ← fs.mapM fun f => match f.splitOn "=" with | [k, v] => some (k, v) | _ => none
@@ -95,12 +104,20 @@ def parseCase (line : String) : Option Case := do
   if roots.isEmpty || roots.any (· ≥ n) || deps.any (·.any (· ≥ n)) || ev.any (·.2 ≥ n) || pk.length != n
       || failing.any (· ≥ n) then none
   let warm := (field kv "warm").getD "0" == "1"
-  pure ⟨deps, roots, ev, rc, pk, failing, bad ++ miss, warm⟩
+  let subs ← parseSubs ((field kv "sub").getD "-")
+  if subs.any (fun x => x.2 ≥ n || pk[x.2]? == some x.1) then none
+  pure ⟨deps, roots, ev, rc, pk, failing, bad ++ miss, warm, subs⟩
 
 /-- the wait loop as extracted from /repo on this run (none for the pinned code) -/
 def waitSkipRank : Option Nat := Facts.skipOf PlzVerif.Generated.C04.waitSkip
 
-def cfgOf (c : Case) : Cfg := ⟨c.deps.length, fun t => (c.deps[t]?).getD [], true⟩
+/-- the model's configuration: the graph of the case, and how a failed target is treated by the active set and by
+    the waiters of a target as extracted from /repo on this run (all `true` for the pinned code, `C05_facts_ok`) -/
+def cfgOf (c : Case) : Cfg :=
+  { n := c.deps.length, deps := fun t => (c.deps[t]?).getD [], needBuild := true,
+    failClears := Facts.failClearsOf PlzVerif.Generated.C04.activeSet,
+    failWakes := Facts.failWakesOf PlzVerif.Generated.C04.wakeFacts,
+    lateOK := Facts.lateOKOf PlzVerif.Generated.C04.wakeFacts }
 
 def findIdx (n : Nat) (p : Nat → Bool) : Option Nat := (List.range n).find? p
 
@@ -144,17 +161,33 @@ def closure (cs : Case) : Nat → List Nat → List Nat
     let next := (acc.flatMap (depsOf cs)).filter (fun d => !acc.contains d)
     if next.isEmpty then acc else closure cs f (acc ++ next.eraseDups)
 
+/-- the targets the package of `t` subincludes -/
+def subsOf (cs : Case) (t : Nat) : List Nat :=
+  match cs.pk[t]? with
+  | some p => cs.subs.filterMap fun x => if x.1 == p then some x.2 else none
+  | none => []
+
+/-- what the invocation has to build: the requested targets, their dependencies and what their packages subinclude -/
+def neededOf (cs : Case) : Nat → List Nat → List Nat
+  | 0, acc => acc
+  | f + 1, acc =>
+    let next := (acc.flatMap fun t => depsOf cs t ++ subsOf cs t).filter (fun d => !acc.contains d)
+    if next.isEmpty then acc else neededOf cs f (acc ++ next.eraseDups)
+
 /-- the invocation must fail -/
 def mustFail (cs : Case) : Bool :=
   let n := cs.deps.length
-  let needed := closure cs n cs.roots.eraseDups
+  let needed := neededOf cs n cs.roots.eraseDups
   let onCycle := fun t => (closure cs n (depsOf cs t).eraseDups).contains t
   let selfPkgs := (List.range n).filterMap fun t => if (depsOf cs t).contains t then cs.pk[t]? else none
-  needed.any fun t =>
+  let own := fun t =>
     cs.failing.contains t || onCycle t ||
     match cs.pk[t]? with
     | some p => cs.badPkgs.contains p || selfPkgs.contains p
     | none => false
+  -- a package that subincludes a target that cannot be built does not parse
+  let subBroken := fun t => (subsOf cs t).any fun u => (closure cs n [u]).any own
+  needed.any fun t => own t || subBroken t
 
 /-- warm cases: bring an up-to-date dependency (no event in the log, not failing) to Built without events, its own
     dependencies first; `none` if the model does not allow it (e.g. one of its dependencies failed) -/
@@ -186,6 +219,10 @@ def replay (cs : Case) : String :=
         let s0 := if cs.warm then
             (c.deps t).foldl (fun acc d => (silentBuild c eligible c.deps fuel (n + 1) acc d).getD acc) s
           else s
+        -- the parse of `t`'s package has waited for what it subincludes (`WaitForBuiltTarget`): the waiter must have
+        -- been woken, by a success
+        if (subsOf cs t).any (fun u => !(s0.woken u && (s0.st u).isBuilt)) then
+          .error s!"rejected at {pos}: start of {t} before what its package subincludes was built" else
         match driveStart c t fuel s0 with
         | some s' => go r (pos + 1) s'
         | none => .error s!"rejected at {pos}: start of {t} is not enabled"
@@ -194,7 +231,11 @@ def replay (cs : Case) : String :=
         | some s' => go r (pos + 1) s'
         | none => .error s!"rejected at {pos}: {t} is not building"
       else .error s!"rejected at {pos}: dependency output missing for {t}"
-  match go cs.events 0 St.init with
+  -- the parse tasks of the packages involved ask for what they subinclude (during the initial scan)
+  let needed := neededOf cs n cs.roots.eraseDups
+  let subTargets := (needed.flatMap (subsOf cs)).eraseDups
+  let s0 := subTargets.foldl (fun acc u => (fireG c waitSkipRank acc (.subWait u)).getD acc) St.init
+  match go cs.events 0 s0 with
   | .error e => e
   | .ok s =>
     let ended := cs.events.filterMap fun e => if e.1 == 'E' then some e.2 else none
